@@ -7,7 +7,9 @@
     the behaviour before the fix) must be REJECTED by TLC - the model can see the bug class.
 (G) verdict.
     (1) entry probes: every annotated schema entry (harness/versions.py) x every parent context x the
-        versions at / just below / just above its bounds and no version; TLC prints the probe table
+        versions at / just below / just above its bounds and no version - the neighbouring tenths and
+        versions that are not tenths (bound +- 0.01 / 0.04; versions are rationals x100 in the spec);
+        sampled rows also through mappyfile.validate, as one root and as a list of one / two roots; TLC prints the probe table
         (Accept evaluated in TLA+), the real Validator judges the minimal document holding the entry:
         "no validation message" <=> accept, and a rejected entry is named by a message.
     (2) histories: TLC (-simulate) emits call histories, every call with the answer the contract
@@ -39,15 +41,20 @@ M_REPS = ["layer.utfdata", "layer.opacity", "label.priority/anyOf/2", "style.siz
 H_REPS = ["layer.utfdata", "layer.opacity", "label.priority", "label.priority/anyOf/2", "style.size/anyOf/1",
           "symbol.antialias", "connectionoptions#", "class.leader", "map.defresolution", "web.log"]
 H_NAMES = ["map", "layer", "class", "label", "style", "symbol"]
-VERSION_SETS = [(49, 50, 76, 77), (59, 60, 62, 82), (53, 54, 56, 81), (39, 40, 70, 72), (47, 48, 64, 80)]
+# versions x100 (spec/Validator.tla): published tenths next to bounds ...
+VERSION_SETS = [(490, 500, 760, 770), (590, 600, 620, 820), (530, 540, 560, 810), (390, 400, 700, 720), (470, 480, 640, 800)]
+# ... and versions that are not tenths, 0.01 / 0.04 beyond and inside a bound (7.6 is both a min and a max)
+FINE = (1, 4)
+FINE_H = (756, 764)
+ALL_FORMS = ("dict", "list1", "list2")
 
 
 def ver(v):
-    return None if v == NOV else v / 10.0
+    return None if v == NOV else v / float(versions.SCALE)
 
 
 def vtxt(v):
-    return "none" if v == NOV else str(v)
+    return "none" if v == NOV else "%g" % (v / float(versions.SCALE))
 
 
 # ------------------------------------------------------------------ constants for TLC
@@ -68,7 +75,7 @@ ALL_OPS = ("validate", "get_versioned", "export", "mod_validate", "mod_export", 
 
 
 def setup(vs, docs, names, vset, tag, ids=None, key_with_version=True, max_calls=4, mode="mc", ops=ALL_OPS,
-          derive="fresh"):
+          derive="fresh", forms=("dict",)):
     """cfg constants + the JSON data file read by spec/Validator.tla (Data); returns (constants, env)"""
     names = sorted(set(names) | ({"map"} if {"export", "mod_export"} & set(ops) or mode == "table" else set()))
     roots = sorted({d["root"] for d in docs})
@@ -84,14 +91,15 @@ def setup(vs, docs, names, vset, tag, ids=None, key_with_version=True, max_calls
     data = {"entries": [[e["id"], e["min"], e["max"]] for e in vs.entries if ids is None or e["id"] in ids],
             "defaults": [x for x in c_defaults(vs, names) if ids is None or x[1] in ids],
             "paths": paths,
-            "docs": [{k: d[k] for k in ("id", "root", "entry", "covers", "guards", "shadow", "fault")} for d in docs]}
+            "docs": [dict({k: d[k] for k in ("id", "root", "entry", "covers", "guards", "shadow", "fault")},
+                          fine=bool(d.get("fine"))) for d in docs]}
     ddir = os.path.join(tlc.BUILD, "c09")
     os.makedirs(ddir, exist_ok=True)
     fn = os.path.join(ddir, tag + ".json")
     with open(fn, "w") as f:
         json.dump(data, f)
     cst = {"Versions": set(vset), "Names": set(names), "KeyWithVersion": key_with_version, "MaxCalls": max_calls,
-           "Mode": mode, "Ops": set(ops), "Derive": derive}
+           "Mode": mode, "Ops": set(ops), "Derive": derive, "Forms": set(forms), "Fine": set(FINE)}
     return cst, {"C09_DATA": fn}
 
 
@@ -100,7 +108,7 @@ def model_check(ck, vs, quick):
     docs = [d for d in vs.entry_docs(entry_ids=set(M_REPS), contexts="one")]
     docs += [d for d in vs.entry_docs(entry_ids={"layer.utfdata", "layer.opacity"}) if d["ctx"] == "layer"]
     docs += [d for d in vs.fault_docs("root") if d["ctx"] == "layer"][:1]
-    vset = VERSION_SETS[0]
+    vset = VERSION_SETS[0] + (() if quick else FINE_H[1:])
     n = 3 if quick else 4
     cst, env = setup(vs, docs, ["map", "layer"], vset, "mc", ids=set(M_REPS), max_calls=n, mode="mc")
     cfg = tlc.cfg_text(constants=cst, invariants=["CacheSound", "HistoryIndependent", "VersionlessAcceptsAll", "Bound"])
@@ -153,12 +161,12 @@ def tables(ck, vs, docs, vset, names, tag):
     return rows, sorted(srows, key=lambda r: (r["name"], r["v"]))
 
 
-def run_schemas(ck, vs, rows, tmp):
+def run_schemas(ck, vs, rows, tmp, quick=False):
     """get_versioned_schema / create on fresh Validators against the schema table"""
     rp = Replayer(vs, [], tmp)
     for row in rows:
         for op, exp in (("get_versioned", {"absent": row["absent"]}), ("mod_create", {"defaults": row["defaults"]})):
-            if op == "mod_create" and row["name"] == "symbolset":
+            if op == "mod_create" and (row["name"] == "symbolset" or (quick and row["v"] != NOV and row["v"] % 10)):
                 continue
             c = {"op": op, "name": row["name"], "v": row["v"]}
             ck.count()
@@ -244,11 +252,21 @@ def run_probes(ck, vs, docs, rows, module_every):
             n_mod += 1
             ck.count()
             m2 = mappyfile.validate(d["dict"], version=ver(row["v"]))
-            if (not m2) != row["accept"] and not wrong:       # (wrong: same call underneath, reported above)
+            wrong2 = (not m2) != row["accept"]
+            if wrong2 and not wrong:       # (wrong: same call underneath, reported above)
                 ck.violation("C09|accept|" + where + "|mappyfile.validate",
                              "mappyfile.validate: %s at version %s: Accept = %s, messages %s" % (
                                  d["entry"], vtxt(row["v"]), row["accept"], [m["error"][:60] for m in m2[:2]]),
                              case(d, row, m2))
+            # the same root(s) given as a list, as loads returns a Mapfile with several root blocks
+            n = 1 + n_mod % 2
+            ck.count()
+            m3 = mappyfile.validate([d["dict"]] * n, version=ver(row["v"]))
+            if (not m3) != row["list%d" % n] and not wrong and not wrong2:
+                ck.violation("C09|accept|" + where + "|mappyfile.validate|list",
+                             "mappyfile.validate([%d roots]): %s at version %s: contract accept = %s, messages %s" % (
+                                 n, d["entry"], vtxt(row["v"]), row["list%d" % n], [m["error"][:60] for m in m3[:2]]),
+                             dict(case(d, row, m3), roots=n))
     # (G3) same messages with and without a version
     for row in rows:
         d = bydoc[row["doc"]]
@@ -264,10 +282,8 @@ def run_probes(ck, vs, docs, rows, module_every):
 def bound_versions(vs):
     out = set()
     for e in vs.entries:
-        if e["min"] != versions.NOMIN:
-            out |= {e["min"] - 1, e["min"]}
-        if e["max"] != versions.NOMAX:
-            out |= {e["max"], e["max"] + 1}
+        for b in ([e["min"]] if e["min"] != versions.NOMIN else []) + ([e["max"]] if e["max"] != versions.NOMAX else []):
+            out |= {b - 10, b, b + 10} | {b - f for f in FINE} | {b + f for f in FINE}
     return sorted(out)
 
 
@@ -285,7 +301,7 @@ def history_runs(ck, vs, vset, n, seed, tag, max_calls=5):
     docs += [d for d in vs.fault_docs("root") if d["ctx"] in ("layer", "map")][:2]
     seen = set()
     docs = [d for d in docs if not (d["id"] in seen or seen.add(d["id"]))]
-    cst, env = setup(vs, docs, H_NAMES, vset, tag, max_calls=max_calls, mode="sim")
+    cst, env = setup(vs, docs, H_NAMES, vset, tag, max_calls=max_calls, mode="sim", forms=ALL_FORMS)
     cfg = tlc.cfg_text(constants=cst, invariants=["Emit", "CacheSound", "HistoryIndependent"])
     # (the simulator checks - and so Emit prints - every candidate successor of the last step: one
     #  requested trace yields a bundle of histories sharing a prefix; ask for fewer, sample n)
@@ -346,12 +362,12 @@ class Replayer:
     def call(self, V, c):
         """perform one call; returns the answer in the form of the spec"""
         op, v = c["op"], ver(c["v"])
-        if op == "validate":
-            d = self.docs[c["doc"]]
-            return {"reject": bool(V.validate(d["dict"], schema_name=d["root"], version=v))}
-        if op == "mod_validate":
-            d = self.docs[c["doc"]]
-            return {"reject": bool(self.mappyfile.validate(d["dict"], version=v))}
+        if op in ("validate", "mod_validate"):
+            ds = [self.docs[i] for i in c["docs"]]
+            arg = ds[0]["dict"] if c["form"] == "dict" else [d["dict"] for d in ds]
+            if op == "validate":
+                return {"reject": bool(V.validate(arg, schema_name=ds[0]["root"], version=v))}
+            return {"reject": bool(self.mappyfile.validate(arg, version=v))}
         if op == "get_versioned":
             return self.absent(V.get_versioned_schema(v, c["name"]), c["name"])
         if op == "export":
@@ -386,8 +402,13 @@ class Replayer:
         return False
 
 
+def subj(c):
+    return ",".join(c["docs"]) if "docs" in c else c.get("name")
+
+
 def call_txt(c):
-    return "%s(%s)" % (c["op"], vtxt(c["v"]))
+    lst = "[%d]," % len(c["docs"]) if c.get("form") == "list" else ""
+    return "%s(%s%s)" % (c["op"], lst, vtxt(c["v"]))
 
 
 def replay_history(ck, rp, hist, origin):
@@ -406,7 +427,7 @@ def replay_history(ck, rp, hist, origin):
             continue
         # classify: alone on a fresh object?
         alone = rp.call(impl.Validator(), c)
-        subject = c.get("doc") or c.get("name")
+        subject = subj(c)
         if not rp.agrees(alone, exp):
             # not a matter of history: same signatures as the entry probes / the schema table, which
             # enumerate these cases deterministically (a repeated signature is reported once)
@@ -445,8 +466,15 @@ def replay_history(ck, rp, hist, origin):
 def alone_signatures(ck, rp, c, got, exp):
     vs = rp.vs
     if "reject" in exp:
-        d = rp.docs[c["doc"]]
-        suffix = "|mappyfile.validate" if c["op"] == "mod_validate" else ""
+        # a list of roots: the signature names the root the contract rejects (judged alone, as a dict)
+        d = rp.docs[c["docs"][0]]
+        if len(c["docs"]) > 1 and exp["reject"]:
+            for i in c["docs"]:
+                one = {"op": "validate", "docs": [i], "form": "dict", "name": rp.docs[i]["root"], "v": c["v"]}
+                if rp.call(impl.Validator(), one).get("reject"):
+                    d = rp.docs[i]
+                    break
+        suffix = ("|mappyfile.validate" if c["op"] == "mod_validate" else "") + ("|list" if c.get("form") == "list" else "")
         if d["fault"]:
             return ["C09|fault|%s.%s|not-reported|%s" % (d["holder"], d["key"], "none" if c["v"] == NOV else "versioned")]
         where = "%s|%s" % (d["entry"], versions.vclass(vs.by_id[d["entry"]], c["v"]))
@@ -522,6 +550,8 @@ def run(tier):
     t0 = time.time()
     # (G1)+(G3): quick = every entry x its versions in every context it has; rows are cheap
     docs = vs.entry_docs(contexts="all")
+    for d in docs:     # non-tenth versions next to the bounds: quick = in the entry's own block type as root
+        d["fine"] = (not quick) or d["root"] == d["holder"]
     faults = vs.fault_docs("root" if quick else "all")
     # Versions of this run = every version at / next to a bound: fault documents and every schema name
     # are judged at each of them
@@ -529,7 +559,13 @@ def run(tier):
     if quick:      # fault documents: a seed-picked version set (and no version) instead of every version
         keep = set(VERSION_SETS[seed % len(VERSION_SETS)]) | {NOV}
         rows = [r for r in rows if r["vc"] != "fault" or r["v"] in keep]
-    n_mod = run_probes(ck, vs, docs + faults, rows, module_every=(23 if quick else 2))
+        # schema objects at the non-tenth versions: every schema name but the MAP schema (the largest;
+        # it is the union of the others and is walked at every tenth)
+        # and one of the distances (seed-picked); create() is compared at the tenths only
+        fd = FINE[seed % len(FINE)]
+        srows = [r for r in srows if r["v"] == NOV or r["v"] % 10 == 0 or
+                 (r["name"] != "map" and r["v"] % 10 in (fd, 10 - fd))]
+    n_mod = run_probes(ck, vs, docs + faults, rows, module_every=(23 if quick else 3))
     ck.sample({"probe": rows[len(rows) // 3], "document": next(d["dict"] for d in docs + faults if d["id"] == rows[len(rows) // 3]["doc"])})
     ck.notes.append("probes %.1fs" % (time.time() - t0))
     t0 = time.time()
@@ -540,37 +576,40 @@ def run(tier):
     steps = 0
     try:
         # schema objects and create() for every schema name x every version at / next to a bound
-        run_schemas(ck, vs, srows, tmp)
+        run_schemas(ck, vs, srows, tmp, quick)
         ck.notes.append("schemas %.1fs" % (time.time() - t0))
         t0 = time.time()
         # (G2)
         # quick: one simulation over two version sets at once (the first and a seed-picked one)
-        sets = [VERSION_SETS[0] + VERSION_SETS[1 + seed % (len(VERSION_SETS) - 1)]] if quick else VERSION_SETS
+        sets = [VERSION_SETS[0] + VERSION_SETS[1 + seed % (len(VERSION_SETS) - 1)] + FINE_H] if quick else \
+            [x + FINE_H for x in VERSION_SETS]
         per = 200 if quick else 1300
         for k, vset in enumerate(sets):
             hdocs, hs = history_runs(ck, vs, vset, per, seed * 100 + k, "c09_hist%d" % k, max_calls=4 if quick else 5)
             rp = Replayer(vs, hdocs, tmp)
             for h in hs:
                 replay_history(ck, rp, h, "sim:%s" % (vset,))
-                ck.nontrivial([(s["call"]["op"], s["call"].get("doc") or s["call"].get("name"), s["call"]["v"]) for s in h])
+                ck.nontrivial([(s["call"]["op"], subj(s["call"]), s["call"]["v"]) for s in h])
                 steps += len(h)
             n_hist += len(hs)
             if k == 0:
                 ck.sample({"history": hs[0]})
-        if quick:      # calls on the object only, two documents, two versions + none: 144 histories
-            pdocs, ps = pair_histories(ck, vs, (76, 77), "c09_pairs", ("layer.opacity@map/layers", "layer.utfdata@layer"),
-                                       ("validate", "get_versioned", "export"), names=["map"])
+        if quick:      # calls on the object only; two root schemas that share a sub-schema (LABEL holds STYLEs),
+            # a STYLE keyword in each, two versions + none: 144 histories (same-name pairs are also the
+            # prefixes of the three-call histories below)
+            pdocs, ps = pair_histories(ck, vs, (590, 770), "c09_pairs", ("style.gap@style", "style.gap@label/styles"),
+                                       ("validate", "get_versioned"), names=["label", "style"])
         else:
-            pdocs, ps = pair_histories(ck, vs, (50, 76, 77), "c09_pairs",
+            pdocs, ps = pair_histories(ck, vs, (500, 760, 770), "c09_pairs",
                                        ("layer.opacity@map/layers", "label.priority/anyOf/2@map/layers/classes/labels",
                                         "layer.utfdata@layer"), ALL_OPS)
         # every three-call history on a small schema (STYLE: cheap to expand and to walk): two documents
         # whose entries are out of range below / above, two versions + none, validate + get_versioned
-        tdocs, ts = pair_histories(ck, vs, (59, 77), "c09_triples", ("style.gap@style", "style.antialias@style"),
+        tdocs, ts = pair_histories(ck, vs, (590, 770), "c09_triples", ("style.gap@style", "style.antialias@style"),
                                    ("validate", "get_versioned"), names=["style"], length=3)
         batches = [(pdocs, ps, "all-pairs"), (tdocs, ts, "all-triples")]
         if not quick:
-            t2docs, t2s = pair_histories(ck, vs, (76, 77), "c09_triples_map",
+            t2docs, t2s = pair_histories(ck, vs, (760, 770), "c09_triples_map",
                                          ("layer.opacity@map/layers", "layer.utfdata@layer"),
                                          ("validate", "get_versioned"), names=["map", "layer"], length=3)
             batches.append((t2docs, t2s, "all-triples-map"))
@@ -578,7 +617,7 @@ def run(tier):
             rp = Replayer(vs, bdocs, tmp)
             for h in bs:
                 replay_history(ck, rp, h, origin)
-                ck.nontrivial([(s["call"]["op"], s["call"].get("doc") or s["call"].get("name"), s["call"]["v"]) for s in h])
+                ck.nontrivial([(s["call"]["op"], subj(s["call"]), s["call"]["v"]) for s in h])
                 steps += len(h)
         n_pairs = len(ps)
         n_triples = sum(len(b[1]) for b in batches[1:])
@@ -609,7 +648,7 @@ def replay(path):
     else:
         tmp = tempfile.mkdtemp(prefix="c09_")
         try:
-            ids = {s["call"]["doc"] for s in c["history"] if "doc" in s["call"]}
+            ids = {i for s in c["history"] for i in s["call"].get("docs", [])}
             docs = [d for d in vs.entry_docs() + vs.fault_docs("all") if d["id"] in ids]
             rp = Replayer(vs, docs, tmp)
             V = impl.Validator()
@@ -617,7 +656,7 @@ def replay(path):
             for s in c["history"]:
                 got = rp.call(V, s["call"])
                 ok = rp.agrees(got, s["exp"])
-                print("%-22s %-40s got %s expected %s %s" % (call_txt(s["call"]), s["call"].get("doc") or s["call"].get("name"),
+                print("%-22s %-40s got %s expected %s %s" % (call_txt(s["call"]), subj(s["call"]),
                                                             brief(got), brief(s["exp"]), "" if ok else "<-- differs"))
                 bad = bad or not ok
         finally:
